@@ -366,6 +366,15 @@ func (fr *frame) havocMods(ms ModSet, args []*Val, sig *types.Signature, st *Sta
 			if i < len(args) {
 				fr.havocElems(args[i], argT[i], st, reach)
 			}
+		case strings.HasPrefix(k, "PF:"):
+			var i int
+			fmt.Sscanf(k, "PF:%d:", &i)
+			if _, whole := ms[fmt.Sprintf("P:%d", i)]; whole {
+				continue
+			}
+			if i < len(args) {
+				fr.havocField(args[i], argT[i], k[strings.Index(k[3:], ":")+4:], st, reach)
+			}
 		}
 	}
 }
@@ -390,6 +399,33 @@ func (fr *frame) havocPointee(a *Val, t types.Type, st *State, reach string) {
 	lv := fr.ptrLV(a, t)
 	nv := u.declare("havoc", u.sorts.sortOf(pt.Elem()))
 	fr.assumeWF(pt.Elem(), nv, st, reach)
+	u.write(st, lv, nv)
+}
+
+// havocField havocs one field path of the object a pointer argument points to.
+func (fr *frame) havocField(a *Val, t types.Type, path string, st *State, reach string) {
+	u := fr.u
+	pt, ok := t.Underlying().(*types.Pointer)
+	if !ok {
+		fr.havocPointee(a, t, st, reach)
+		return
+	}
+	lv := fr.ptrLV(a, t)
+	cont := pt.Elem()
+	for _, f := range strings.Split(path, ".") {
+		var fi int
+		fmt.Sscanf(f, "%d", &fi)
+		stt, ok := cont.Underlying().(*types.Struct)
+		if !ok || fi >= stt.NumFields() {
+			fr.havocPointee(a, t, st, reach)
+			return
+		}
+		ft := stt.Field(fi).Type()
+		lv = lv.extendField(fi, cont, ft)
+		cont = ft
+	}
+	nv := u.declare("havoc", u.sorts.sortOf(cont))
+	fr.assumeWF(cont, nv, st, reach)
 	u.write(st, lv, nv)
 }
 
@@ -469,6 +505,20 @@ func (fr *frame) applyExtern(key string, ec *ExternContract, args []*Val, resT t
 			var i int
 			fmt.Sscanf(m, "elems arg%d", &i)
 			fr.havocElems(args[i], argT[i], st, reach)
+		case strings.HasPrefix(m, "arg") && strings.Contains(m, "."):
+			// argN.Field: one named field of the pointee
+			var i int
+			fmt.Sscanf(m, "arg%d.", &i)
+			fname := m[strings.Index(m, ".")+1:]
+			if pt, ok := argT[i].Underlying().(*types.Pointer); ok {
+				if stt, ok := pt.Elem().Underlying().(*types.Struct); ok {
+					for fi := 0; fi < stt.NumFields(); fi++ {
+						if stt.Field(fi).Name() == fname {
+							fr.havocField(args[i], argT[i], fmt.Sprint(fi), st, reach)
+						}
+					}
+				}
+			}
 		}
 	}
 	var res *Val
@@ -606,7 +656,7 @@ func (fr *frame) callSpecBuiltin(fn *ssa.Function, args []*Val, resT types.Type,
 			return &Val{t: fmt.Sprintf("(forall ((%s Int)) (=> %s %s))", k, rng, body)}
 		}
 		return &Val{t: fmt.Sprintf("(exists ((%s Int)) (and %s %s))", k, rng, body)}
-	case "sameSlice", "sameCerts", "sameElems", "sameStrings", "sameBytes":
+	case "sameSlice", "sameCerts", "sameElems", "sameStrings", "sameBytes", "sameAttrs", "sameChain":
 		return &Val{t: eq(args[0].t, args[1].t)}
 	case "ns":
 		return args[0]
